@@ -3,6 +3,8 @@ from collections import defaultdict
 from .ir import operands, global_roots
 from .effects import external_effect
 
+HANDLER_DISPATCH = ("invoke_safe_str_constraint_handler", "invoke_safe_mem_constraint_handler")
+
 PTR_OPS = ("getelementptr", "bitcast", "phi", "select", "addrspacecast")
 INT_OPS = ("ptrtoint", "inttoptr", "add", "sub", "and", "or", "sdiv", "udiv", "ashr", "lshr", "shl", "mul", "zext", "sext", "trunc")
 
@@ -22,7 +24,7 @@ def labels_of(o, der, groots):
     return frozenset()
 
 
-def derive(fn, seeds=None, groots=None, through_int=False, max_load_depth=0):
+def derive(fn, seeds=None, groots=None, through_int=False, max_load_depth=0, retmap=None):
     """Forward closure.  seeds: {value id: label}.  groots: {global name: label}.
     Returns {value id: frozenset(labels)}; with max_load_depth>0 labels are (label, depth) pairs where depth counts loads."""
     der = {}
@@ -50,6 +52,10 @@ def derive(fn, seeds=None, groots=None, through_int=False, max_load_depth=0):
             elif op in ops_ok:
                 for o in i.get("ops", ()):
                     new |= labels_of(o, der, g2)
+            elif op in ("call", "invoke") and retmap is not None:
+                for k in retmap(i):
+                    if k < len(i.get("args", ())):
+                        new |= labels_of(i["args"][k], der, g2)
             elif op == "load" and max_load_depth:
                 for (l, d) in labels_of(i["ops"][0], der, g2):
                     if d + 1 <= max_load_depth:
@@ -68,14 +74,30 @@ class Summaries:
         s.w = defaultdict(set)        # fn name -> set of param indices written through
         s.esc = defaultdict(set)      # ... stored somewhere / passed to unknown code
         s.unmodelled = defaultdict(set)   # fn name -> {(callee, param idx)}
+        s.ret_from = defaultdict(set) # fn key -> param indices whose derived pointers are returned
         s._der = {}
         s._compute()
 
-    def der(s, fn):
+    def retmap(s, fn):
+        """for a call instruction in fn: argument indices whose pointer may come back as the result"""
+        def rm(i):
+            name = i.get("callee")
+            if not name:
+                return ()
+            callee = s.prog.resolve(fn, name)
+            if callee is not None:
+                return tuple(s.ret_from.get((callee.mod["tu"], callee.name), ()))
+            eff = external_effect(name)
+            if eff and "ret_arg" in eff:
+                return (eff["ret_arg"],)
+            return ()
+        return rm
+
+    def der(s, fn, fresh=False):
         d = s._der.get(id(fn))
-        if d is None:
+        if d is None or fresh:
             seeds = {p["id"]: k for k, p in enumerate(fn.j["params"]) if p["ty"].endswith("*")}
-            d = derive(fn, seeds, through_int=True)
+            d = derive(fn, seeds, through_int=True, retmap=s.retmap(fn))
             s._der[id(fn)] = d
         return d
 
@@ -87,10 +109,17 @@ class Summaries:
             changed = False
             rounds += 1
             for fn in prog.allfuncs:
-                d = s.der(fn)
+                if fn.name in HANDLER_DISPATCH:
+                    continue      # handing the offending pointer to the registered handler is the Annex K contract, not an effect of the library
+                d = s.der(fn, fresh=True)
                 key = (fn.mod["tu"], fn.name)
                 for i in fn.insts():
                     op = i["op"]
+                    if op == "ret":
+                        for o in i.get("ops", ()):
+                            for l in labels_of(o, d, None):
+                                if l not in s.ret_from[key]:
+                                    s.ret_from[key].add(l); changed = True
                     if op == "store":
                         for l in labels_of(i["ops"][1], d, None):
                             if l not in s.w[key]:
